@@ -252,6 +252,7 @@ def finish(pid, tier, seed, cfg, reports, extra, t0):
     solver_s = 0.0
     backends = {}
     functions = []
+    lemmas = []
     samples = []
     for rep in reports:
         st = rep.get('status')
@@ -302,6 +303,8 @@ def finish(pid, tier, seed, cfg, reports, extra, t0):
         if rep.get('kindof') == 'function':
             functions.append(dict(function=rep['id'], sha=rep.get('sha'), status=st, paths=rep.get('paths'), obligations=len(rep['obligations']),
                                   failed=len(fails), seconds=rep.get('seconds'), prune_checks=rep.get('prune_checks'), notes=rep.get('notes')))
+        if rep.get('kindof') != 'function' and str(rep['id']).startswith('lemma:'):
+            lemmas.append(dict(lemma=rep['id'][6:], status='proved' if st == 'ok' and not fails else st))
         flag = 'ok' if st == 'ok' and not fails else ('FAIL' if fails else st)
         print(f"[{flag:>4}] {rep['id']:<88} paths={rep.get('paths', 0):<3} obligations={len(rep['obligations']):<3} failed={len(fails)} {rep.get('seconds', '')}s {rep.get('reason', '') if st != 'ok' else ''}")
         for ob in fails:
@@ -352,7 +355,7 @@ def finish(pid, tier, seed, cfg, reports, extra, t0):
               coverage=dict(obligations=n_obl, discharged=n_dis,
                             checker_cmd=f"./check {pid} --tier {tier}",
                             trusted_base=TRUSTED_BASE + list(cfg.get('trusted', [])),
-                            functions_under_contract=functions, backends=backends, solver_seconds=round(solver_s, 3),
+                            functions_under_contract=functions, lemmas=lemmas, backends=backends, solver_seconds=round(solver_s, 3),
                             samples=samples or [dict(note='no non-trivial obligation sampled')],
                             known_findings=known_lines, bounded=bounded, frame_exemptions=frame_rows,
                             undecided=undecided, checker_errors=errors,
